@@ -40,7 +40,7 @@ Definition fork_ready (c : client) : Prop :=
 (* competing commits on the client's current state, authored by other members, authorised, never seen before *)
 Definition competitor (c : client) (e : event) : Prop :=
   e_kind e = 0 /\ e_state e = k_cur (kc c) /\ e_epoch e = k_epoch (kc c) /\ e_author e <> me c /\
-  e_auth e = true /\ e_removes e = [] /\ e_refs e = [] /\ e_ts e <> 0 /\
+  (e_auth e = true /\ e_bad e <> 8) /\ e_removes e = [] /\ e_refs e = [] /\ e_ts e <> 0 /\
   aget N.eqb (e_id e) (dedup c) = None.
 
 Definition fork_set (c : client) (K : list event) : Prop :=
